@@ -389,6 +389,17 @@ def step (c : Ctx) (line : String) : Ctx × String :=
         ({ c with eo := some { e with heap := r.heap, obj := r.obj } }, "ok")
       | _, _ => (c, "bad-op")
     | _, _, _ => (c, "bad-op")
+  | "eo.poke" :: i :: rest =>
+    -- the CALLER overwrites, in place, an array it owns (a bounds array it passed, an argument, a result it was handed)
+    match c.eo, i.toNat?, parseFs rest with
+    | some e, some i, some fs =>
+      match e.vis[i]? with
+      | some ref =>
+        if fs.length == (e.heap.read ref).length then
+          ({ c with eo := some { e with heap := e.heap.write ref fs } }, "ok")
+        else (c, "bad-op")
+      | none => (c, "bad-op")
+    | _, _, _ => (c, "bad-op")
   | ["eo.visible"] =>
     match c.eo with
     | some e => (c, " | ".intercalate (e.vis.toList.map fun r => hxs (e.heap.read r)))
